@@ -386,6 +386,40 @@ impl GraphInline {
         }
     }
 
+    /// the same inline for a note that moves from directory `from` to directory `to`: urls of
+    /// links to other notes are relative to the containing note and are rewritten
+    pub fn relocate(&self, from: &str, to: &str) -> GraphInline {
+        let relocate_all = |inlines: &GraphInlines| -> GraphInlines {
+            inlines
+                .iter()
+                .map(|inline| inline.relocate(from, to))
+                .collect()
+        };
+        match self {
+            GraphInline::Emph(inlines) => GraphInline::Emph(relocate_all(inlines)),
+            GraphInline::Strong(inlines) => GraphInline::Strong(relocate_all(inlines)),
+            GraphInline::Underline(inlines) => GraphInline::Underline(relocate_all(inlines)),
+            GraphInline::Strikeout(inlines) => GraphInline::Strikeout(relocate_all(inlines)),
+            GraphInline::Superscript(inlines) => GraphInline::Superscript(relocate_all(inlines)),
+            GraphInline::Subscript(inlines) => GraphInline::Subscript(relocate_all(inlines)),
+            GraphInline::SmallCaps(inlines) => GraphInline::SmallCaps(relocate_all(inlines)),
+            GraphInline::Link(url, title, link_type, inlines) if self.is_ref() => {
+                let extension = if url.ends_with(".md") { ".md" } else { "" };
+                GraphInline::Link(
+                    format!(
+                        "{}{}",
+                        Key::from_rel_link_url(url, from).to_rel_link_url(to),
+                        extension
+                    ),
+                    title.clone(),
+                    *link_type,
+                    relocate_all(inlines),
+                )
+            }
+            _ => self.clone(),
+        }
+    }
+
     pub fn is_ref(&self) -> bool {
         match self {
             GraphInline::Link(url, _, _, _) => model::is_ref_url(url),
